@@ -972,6 +972,7 @@ func (m *TLSFBlockMetadata) insertFreeBlock(block *tlsfBlock) {
 	}
 
 	block.prevFree = nil
+	block.userData = nil
 	block.nextFree = m.freeList[index]
 	m.freeList[index] = block
 	if block.nextFree != nil {
